@@ -44,6 +44,10 @@ pub enum TermCase {
     FenRun { fen: String, run_ms: u16, via_uci: bool },
     /// a literal UCI script of `position` / `go depth` / `wait` lines (regression files)
     Script { lines: Vec<String> },
+    /// a tiny position searched to the depth ceiling (`go depth 255`), then the SAME position at the end of a
+    /// game record of `plies` shuffle plies (where the ceiling is lower than the cached depth): `go depth 250`
+    /// and `go infinite` must still end by themselves with a legal move and without `info depth` above the limit
+    DeepThenLong { fen: String, plies: u16 },
 }
 
 pub struct C08;
@@ -108,6 +112,9 @@ fn judge_limited(what: &str, limit: u8, depths: &[u32], needed_stop: bool, panic
 }
 
 fn judge_unlimited_depths(what: &str, depths: &[u32]) -> Result<(), Fail> {
+    if depths.contains(&0) {
+        return Err(Fail::new("unlimited-search-depth-not-increasing", format!("{} : `info depth 0` printed (depth counter wrapped or restarted); depths {:?}", what, &depths[..depths.len().min(12)])));
+    }
     for w in depths.windows(2) {
         if w[1] <= w[0] {
             return Err(Fail::new("unlimited-search-depth-not-increasing", format!("{} : `info depth` went from {} to {} (depth counter wrapped or restarted)", what, w[0], w[1])));
@@ -493,7 +500,7 @@ impl Prop for C08 {
     }
 
     fn rule(&self) -> String {
-        "Cases: (a) stateful histories of depth-limited searches (limit 1-5) sharing one table while the game navigates: same position again, sibling, transposition by out-and-back moves of both sides, child, parent - so a deeper exact root entry often pre-exists; in-process and (1 in 5) through the real binary. Oracle: no `info depth` above the limit (decisive, no timeout involved), no panic; a 30 s watchdog without that symptom is only counted as inconclusive. (b) generated tiny positions (kings + 0-4 mutually blocked pawn pairs + 0-1 minor piece) and the curated cages searched WITHOUT limit for 0.3-1.5 s in-process (a watchdog thread plays `stop`) or through the binary (`go infinite`, `isready`, `stop`, `quit`): no panic, `info depth` strictly increasing and <= 255, the search returns within 2 s of the stop with a legal move, the binary answers readyok while searching, does not flood, exits 0; then the same positions with fixed limits 33, 34, 64, 128, 255 (same code path, independent of machine speed). A search that does not return after the stop hangs its shard: the parent reports that case as the violation. evaluations = searches judged. Non-trivial: (a) the limit is below a depth this position was searched to before in the same table; (b) an iteration deeper than 32 was reached; distinct by script / position.".into()
+        "Cases: (a) stateful histories of depth-limited searches (limit 1-5) sharing one table while the game navigates: same position again, sibling, transposition by out-and-back moves of both sides, child, parent - so a deeper exact root entry often pre-exists; in-process and (1 in 5) through the real binary. Oracle: no `info depth` above the limit (decisive, no timeout involved), no panic; a 30 s watchdog without that symptom is only counted as inconclusive. (b) generated tiny positions (kings + 0-4 mutually blocked pawn pairs + 0-1 minor piece) and the curated cages searched WITHOUT limit for 0.3-1.5 s in-process (a watchdog thread plays `stop`) or through the binary (`go infinite`, `isready`, `stop`, `quit`): no panic, `info depth` strictly increasing and <= 255, the search returns within 2 s of the stop with a legal move, the binary answers readyok while searching, does not flood, exits 0; then the same positions with fixed limits 33, 34, 64, 128, 255 (same code path, independent of machine speed); three bare-king positions are searched to the depth ceiling and then again at the end of a 120-320-ply game record, where the ceiling lies below the cached depth (`go depth 250`, `go infinite`, `go depth 3` must end with a legal move); `info depth 0` is a wrapped counter. A search that does not return after the stop hangs its shard: the parent reports that case as the violation. evaluations = searches judged. Non-trivial: (a) the limit is below a depth this position was searched to before in the same table; (b) an iteration deeper than 32 was reached; distinct by script / position.".into()
     }
 
     fn assumptions(&self) -> Vec<String> {
@@ -537,6 +544,18 @@ impl Prop for C08 {
         // curated cages and bare kings, both ways
         let cages = [34usize, 35, 36, 37, 38, 39, 6, 9, 27];
         let mut i = 0u64;
+        for (fen, plies) in [("8/8/8/4k3/8/8/4K3/8 w - - 0 1", 200u16), ("8/8/4k3/8/8/3K4/8/8 w - - 0 1", 320), ("7k/8/8/8/8/8/8/KB6 w - - 0 1", 120)] {
+            i += 1;
+            if !ctx.owns(i) {
+                continue;
+            }
+            let case = TermCase::DeepThenLong { fen: fen.to_string(), plies };
+            ctx.note_inflight("C08", &case);
+            if let Err(f) = Prop::check(self, ctx, &case, ev) {
+                report(case, f);
+                return;
+            }
+        }
         for &c in &cages {
             for via_uci in [false, true] {
                 i += 1;
@@ -580,6 +599,74 @@ impl C08 {
                 self.unlimited(&p, *run_ms as u64, *via_uci, ev)
             }
             TermCase::Script { lines } => self.script(lines, ev),
+            TermCase::DeepThenLong { fen, plies } => {
+                let p = Pos::from_fen(fen).map_err(|e| Fail::new("harness", e))?;
+                let legal: Vec<String> = p.legal().iter().map(|m| m.uci()).collect();
+                let Some(cycle) = shuffle_cycles(&p).into_iter().next() else {
+                    ev.skip("no shuffle cycle in this position");
+                    return Ok(());
+                };
+                let mut record: Vec<String> = Vec::new();
+                while record.len() + 4 <= (*plies as usize).min(396) {
+                    record.extend(cycle.iter().map(|m| m.uci()));
+                }
+                let mut s = Session::start(&[]).map_err(|e| Fail::new("harness", e))?;
+                let what = format!("{} searched to depth 255, then again after {} shuffle plies", fen, record.len());
+                s.send(&format!("position fen {}", fen));
+                s.send("go depth 255");
+                ev.eval();
+                let first = s.read_until(|l| l.starts_with("bestmove"), 8_000);
+                if first.is_none() {
+                    s.send("stop");
+                    if s.read_until(|l| l.starts_with("bestmove"), 5_000).is_none() {
+                        let pan = s.panicked();
+                        s.kill();
+                        return Err(Fail::new(if pan.is_some() { "search-panics" } else { "stop-ignored" }, format!("{} : first search does not end ({:?})", what, pan)));
+                    }
+                    ev.class("deep_then_long_ceiling_not_reached_in_time");
+                }
+                s.send("wait");
+                for go in ["go depth 250", "go infinite", "go depth 3"] {
+                    s.send(&format!("position fen {} moves {}", fen, record.join(" ")));
+                    s.send(go);
+                    ev.eval();
+                    let limit: Option<u32> = go.strip_prefix("go depth ").and_then(|d| d.parse().ok());
+                    let got = s.read_until(|l| l.starts_with("bestmove"), 8_000);
+                    let lines = match got {
+                        Some(l) => l,
+                        None => {
+                            s.send("stop");
+                            match s.read_until(|l| l.starts_with("bestmove"), 5_000) {
+                                Some(l) => {
+                                    ev.class("deep_then_long_needed_stop");
+                                    l
+                                }
+                                None => {
+                                    let pan = s.panicked();
+                                    s.kill();
+                                    return Err(Fail::new(if pan.is_some() { "search-panics" } else { "stop-ignored" }, format!("{} : `{}` does not end ({:?})", what, go, pan)));
+                                }
+                            }
+                        }
+                    };
+                    let depths = uci::info_depths(&lines);
+                    if let (Some(lim), Some(&d)) = (limit, depths.iter().find(|&&d| Some(d) > limit)) {
+                        s.kill();
+                        return Err(Fail::new("searched-deeper-than-the-limit", format!("{} : `{}` printed `info depth {}` (limit {})", what, go, d, lim)));
+                    }
+                    judge_unlimited_depths(&format!("{} : `{}`", what, go), &depths)?;
+                    let bm = uci::bestmove_of(&lines).unwrap_or_default();
+                    if !legal.contains(&bm) {
+                        s.kill();
+                        return Err(Fail::new("unlimited-search-answer-not-legal", format!("{} : `{}` answered bestmove {} (legal: {:?})", what, go, bm, legal)));
+                    }
+                    s.send("wait");
+                }
+                ev.class("deep_then_long_runs");
+                ev.nontrivial(mix(fp_pos(&p) ^ 0xD7 ^ *plies as u64), || json!({"position": fen, "first": "go depth 255", "then_after_plies": record.len()}));
+                s.quit();
+                Ok(())
+            }
         }
     }
 }
